@@ -113,3 +113,22 @@ class _write(Contract):
 
 
 refine("reset", A._sreset, ("_memory",))
+
+
+def _same_prefix(yielded, mem, upto):
+    j = z3.Int(fresh_name("j"))
+    return z3.And(l_len(yielded) == upto, forall([j], z3.Implies(z3.And(0 <= j, j < upto), l_at(yielded, j) == l_at(mem, j)), patterns=[l_at(yielded, j)]))
+
+
+@contract(_MQ + "__iter__")
+class _iter(Contract):
+    """the abstract contract's "iterating the storage yields `items`", for MemoryStorage: the generator yields exactly the elements of the primary
+    list, each once, in order, and changes nothing (the generator is read as the list of what it yields: interleaving with writers is A-gen)"""
+    params = dict(self=MEM)
+    ret = LItem
+    modifies = ()
+    loops = {0: dict(inv=lambda c: [("yielded_so_far", _same_prefix(c._yielded.t, c.self.t["_memory"].t, c.loop(0).t))])}
+
+    @staticmethod
+    def ensures(c):
+        return [("yields_the_primary_list", _same_prefix(c.result.t, c.self.t["_memory"].t, l_len(c.self.t["_memory"].t)))]
